@@ -95,6 +95,9 @@ def gen_attrs(rng, n=None):
 
 
 def attr_value(v):
+    if isinstance(v, dict) and 'np0' in v:
+        # a 0-d array (what a reader stores for a header number)
+        return np.array(v['v'], dtype=v['np0'])
     if isinstance(v, dict) and 'np' in v:
         if isinstance(v['v'], list):
             return np.array(v['v'], dtype=v['np'])
